@@ -1,6 +1,7 @@
 (* C13 - the heap driver simulates the driver on immutable trees as long as no child list
    is shared (which deep copies guarantee); control never depends on values. *)
-From Coq Require Import List Arith Bool Lia.
+From Coq Require Import List Arith Bool Lia ZArith.
+From LV Require Pos.MetaSpan.
 From LV Require Import Inter.Heap Inter.IDriver Inter.Heap_proofs.
 Import ListNotations.
 
@@ -37,16 +38,16 @@ Ltac mem :=
 
 (* filtered += xs  on the list object cur *)
 Lemma ext_step H cur cvs acc Fc xt xv Fx :
-  nth_error H cur = Some cvs -> owns H acc cvs Fc -> ~ In cur Fc ->
+  nth_error H cur = Some (CList cvs) -> owns H acc cvs Fc -> ~ In cur Fc ->
   owns H xt xv Fx -> disjoint (cur :: Fc) Fx ->
   let H' := hext H cur xv in
-  nth_error H' cur = Some (cvs ++ xv) /\ owns H' (acc ++ xt) (cvs ++ xv) (Fc ++ Fx) /\
+  nth_error H' cur = Some (CList (cvs ++ xv)) /\ owns H' (acc ++ xt) (cvs ++ xv) (Fc ++ Fx) /\
   ~ In cur (Fc ++ Fx) /\ length H' = length H /\
   (forall l, l <> cur -> nth_error H' l = nth_error H l).
 Proof.
   intros hn ho hni hx hd. apply disjoint_cons_l in hd. destruct hd as [hcx hd].
-  unfold hext. rewrite (hget_nth _ _ _ hn). cbn zeta.
-  assert (hfr : forall l, l <> cur -> nth_error (hset H cur (cvs ++ xv)) l = nth_error H l).
+  unfold hext. rewrite hn. cbn zeta.
+  assert (hfr : forall l, l <> cur -> nth_error (hset H cur (CList (cvs ++ xv))) l = nth_error H l).
   { intros. apply hset_other. auto. }
   repeat split; auto.
   - apply hset_same. eapply nth_error_lt; eauto.
@@ -56,10 +57,10 @@ Proof.
 Qed.
 
 Lemma hfilter_sim : forall args ds H cur cvs acc Fc ats Fa,
-  nth_error H cur = Some cvs -> owns H acc cvs Fc -> ~ In cur Fc ->
+  nth_error H cur = Some (CList cvs) -> owns H acc cvs Fc -> ~ In cur Fc ->
   owns H ats args Fa -> disjoint (cur :: Fc) Fa ->
   exists cvs' Fc',
-    nth_error (fst (hfilter H cur args ds)) (snd (hfilter H cur args ds)) = Some cvs' /\
+    nth_error (fst (hfilter H cur args ds)) (snd (hfilter H cur args ds)) = Some (CList cvs') /\
     owns (fst (hfilter H cur args ds)) (pfilter acc ats ds) cvs' Fc' /\
     ~ In (snd (hfilter H cur args ds)) Fc' /\
     (forall l, In l (snd (hfilter H cur args ds) :: Fc') -> In l (cur :: Fc) \/ In l Fa) /\
@@ -106,7 +107,7 @@ Proof.
       rewrite app_nil_r in *.
       assert (hos1 : owns H1 ats' args fs).
       { eapply owns_frame; eauto. intros l hl. rewrite fr1; auto; intros ->; apply (hd2 cur); simpl; auto. }
-      inversion hoc as [a0 b0|hh|d0 lc lvs cts fc hnl hcs hnc]; subst.
+      inversion hoc as [a0 b0|hh|d0 lc mc lvs cmt cts fc hnl hml hcs hnc hmc hlm]; subst.
       * (* a token: no children *)
         simpl. rewrite app_nil_r.
         destruct (IH ds H1 cur _ _ _ ats' fs n1 o1 ni1 hos1 hd2) as (cvs' & Fc' & a & b & c0 & d0 & e & g).
@@ -120,7 +121,7 @@ Proof.
         -- intros l h1 h2. clear IH. rewrite g, fr1; auto; clear - h1 h2; mem.
       * (* a tree *)
         assert (hlc : lc <> cur). { intros ->. apply (hd1 cur); simpl; auto. }
-        assert (hnl1 : nth_error H1 lc = Some lvs). { rewrite fr1; auto. }
+        assert (hnl1 : nth_error H1 lc = Some (CList lvs)). { rewrite fr1; auto. }
         assert (hcs1 : owns H1 cts lvs fc).
         { eapply owns_frame; eauto. intros l hl. apply fr1. intros ->. apply (hd1 cur); simpl; auto. }
         simpl pchildren.
@@ -131,7 +132,7 @@ Proof.
            { apply owns_length in o1. destruct (acc ++ repeat PNone nn); auto; discriminate. }
            rewrite app_assoc, hacc. simpl app.
            assert (hdl : disjoint (lc :: fc) fs).
-           { intros l h1 h2. apply (hdf l); auto. }
+           { intros l h1 h2. apply (hdf l); auto. destruct h1 as [<-|h1]; simpl; auto. }
            destruct (IH ds H1 lc lvs cts fc ats' fs hnl1 hcs1 hnc hos1 hdl) as (cvs' & Fc' & a & b & c0 & d1 & e & g).
            exists cvs', Fc'. repeat split; auto.
            ++ intros l hl. clear IH. destruct (d1 l hl) as [h|h]; clear - h; mem.
@@ -157,67 +158,169 @@ Proof.
            ++ intros l h1 h2. clear IH. rewrite g, fr2, fr1; auto; clear - h1 h2; mem.
 Qed.
 
+
+(* ------------------------------------------------------------------ node_builder never writes a Meta *)
+Lemma hset_keeps H l c m x : l <> m -> nth_error H m = Some x -> nth_error (hset H l c) m = Some x.
+Proof. intros hne h. rewrite hset_other; auto. Qed.
+
+Lemma hext_meta H l vs m mt :
+  nth_error H m = Some (CMeta mt) -> nth_error (hext H l vs) m = Some (CMeta mt).
+Proof.
+  intros h. unfold hext. destruct (nth_error H l) as [[old| |]|] eqn:E; auto.
+  apply hset_keeps; auto. intros ->. congruence.
+Qed.
+
+Lemma hfilter_meta : forall args ds H cur m mt,
+  nth_error H m = Some (CMeta mt) -> nth_error (fst (hfilter H cur args ds)) m = Some (CMeta mt).
+Proof.
+  induction args as [|c args IH]; intros ds H cur m mt h; simpl; auto.
+  destruct ds as [|d ds]; simpl; auto.
+  destruct d as [|nn|nn]; auto.
+  - apply IH. repeat apply hext_meta. auto.
+  - destruct c; try (apply IH; apply hext_meta; auto).
+    destruct (hget (hext H cur (repeat VNone nn)) cur); apply IH; repeat apply hext_meta; auto.
+Qed.
+
+Lemma app_keeps (H ext : heap) m x : nth_error H m = Some x -> nth_error (H ++ ext) m = Some x.
+Proof. intros h. rewrite nth_error_app1; auto. eapply nth_error_lt; eauto. Qed.
+
 (* ExpandSingleChild . Tree *)
 Lemma hbuild_sim sh H l cvs acc Fc :
-  nth_error H l = Some cvs -> owns H acc cvs Fc -> ~ In l Fc ->
-  exists f, own H (pbuild sh acc) (hbuild sh H l) f /\ (forall x, In x f -> In x (l :: Fc)).
+  nth_error H l = Some (CList cvs) -> owns H acc cvs Fc -> ~ In l Fc ->
+  exists f ext, fst (hbuild sh H l) = H ++ ext /\
+    own (H ++ ext) (pbuild sh acc) (snd (hbuild sh H l)) f /\
+    (forall x, In x f -> In x (l :: Fc) \/ length H <= x).
 Proof.
   intros hn ho hni. unfold hbuild, pbuild. rewrite (hget_nth _ _ _ hn).
-  assert (hnode : exists f, own H (PNode (cb_data sh) acc) (VTree (cb_data sh) l) f /\
-                            (forall x, In x f -> In x (l :: Fc))).
-  { exists (l :: Fc). split; auto. apply own_node with (vs := cvs); auto. }
+  assert (hnode : exists f ext, H ++ [CMeta empty_meta] = H ++ ext /\
+            own (H ++ ext) (PNode (cb_data sh) empty_meta acc) (VTree (cb_data sh) l (length H)) f /\
+            (forall x, In x f -> In x (l :: Fc) \/ length H <= x)).
+  { exists (l :: length H :: Fc), [CMeta empty_meta]. split; auto. split.
+    - apply own_node with (vs := cvs).
+      + apply app_keeps; auto.
+      + rewrite nth_error_app2, Nat.sub_diag; auto.
+      + apply owns_extend; auto.
+      + auto.
+      + intros hi. apply (owns_bound _ _ _ _ ho) in hi. lia.
+      + apply nth_error_lt in hn. lia.
+    - intros x [<-|[<-|hx]]; simpl; auto. }
+  assert (hsame : forall t v f, own H t v f -> (forall x, In x f -> In x Fc) ->
+            exists f ext, H = H ++ ext /\ own (H ++ ext) t v f /\ (forall x, In x f -> In x (l :: Fc) \/ length H <= x)).
+  { intros t v f h hs. exists f, []. rewrite app_nil_r. repeat split; auto. intros x hx. left. right. auto. }
   inversion ho as [|t ts v vs f fs h1 h2 h3]; subst; auto.
   inversion h2; subst; auto.
   destruct (cb_expand1 sh); auto.
-  exists f. split; auto. intros x hx. right. apply in_or_app; auto.
+  simpl. apply (hsame _ _ f); auto. intros x hx. apply in_or_app; auto.
 Qed.
 
-(* one callback: the result denotes what the callback chain computes on immutable trees,
-   reaches only locations of its arguments or new ones, and writes only inside its arguments *)
-Lemma hcb_sim sh H args ats Fa :
+(* ChildFilterLALR . ExpandSingleChild . Tree: the result denotes what the chain computes on immutable
+   trees, reaches only locations of its arguments or new ones, writes only inside its arguments,
+   and leaves every Meta object as it was *)
+Lemma hcb_inner_sim sh H args ats Fa :
   owns H ats args Fa ->
-  exists f, own (fst (hcb sh H args)) (pcb sh ats) (snd (hcb sh H args)) f /\
-            sub f Fa (length H) /\ frame H (fst (hcb sh H args)) Fa.
+  exists f, own (fst (hcb_inner sh H args)) (pcb_inner sh ats) (snd (hcb_inner sh H args)) f /\
+            sub f Fa (length H) /\ frame H (fst (hcb_inner sh H args)) Fa /\
+            (forall m mt, nth_error H m = Some (CMeta mt) ->
+                          nth_error (fst (hcb_inner sh H args)) m = Some (CMeta mt)).
 Proof.
-  intros ha. unfold hcb, pcb.
+  intros ha. unfold hcb_inner, pcb_inner.
   destruct (cb_filter sh) as [[ds app]|].
   - unfold halloc.
-    set (H0 := H ++ [[]]). set (l0 := length H).
-    assert (hn0 : nth_error H0 l0 = Some []).
+    set (H0 := H ++ [CList []]). set (l0 := length H).
+    assert (hn0 : nth_error H0 l0 = Some (CList [])).
     { unfold H0, l0. rewrite nth_error_app2, Nat.sub_diag; auto. }
     assert (ha0 : owns H0 ats args Fa) by (apply owns_extend; auto).
     assert (hd0 : disjoint [l0] Fa).
     { intros x [<-|[]] hx. apply (owns_bound _ _ _ _ ha) in hx. unfold l0 in hx. lia. }
     destruct (hfilter_sim args ds H0 l0 [] [] [] ats Fa hn0 (owns_nil _) (fun x => x) ha0 hd0)
       as (cvs' & Fc' & a & b & c & d & e & g).
+    pose proof (hfilter_meta args ds H0 l0) as hmeta.
     destruct (hfilter H0 l0 args ds) as [H1 l] eqn:E. simpl in *.
     destruct (ext_step H1 l cvs' _ Fc' _ _ [] a b c (owns_nones H1 app) (disjoint_nil_r _))
       as (n2 & o2 & ni2 & len2 & fr2).
+    pose proof (fun m mt => hext_meta H1 l (repeat VNone app) m mt) as hmeta2.
     set (H2 := hext H1 l (repeat VNone app)) in *.
-    destruct (hbuild_sim sh H2 l _ _ _ n2 o2 ni2) as (f & hf & hsub).
-    exists f. split; auto. split.
-    + intros x hx. apply hsub in hx. rewrite app_nil_r in hx.
-      destruct (d x hx) as [[<-|[]]|h]; auto.
+    destruct (hbuild_sim sh H2 l _ _ _ n2 o2 ni2) as (f & ext & hb & hf & hsub).
+    destruct (hbuild sh H2 l) as [H3 v]. simpl in *. subst H3.
+    exists f. split; auto. split; [|split].
+    + intros x hx. destruct (hsub x hx) as [hx'|hx'].
+      * rewrite app_nil_r in hx'. destruct (d x hx') as [[<-|[]]|h]; auto.
+      * right. assert (length H2 = S l0) by (rewrite len2, e; unfold H0, l0; rewrite app_length; simpl; lia). lia.
     + split.
-      * rewrite len2, e. unfold H0. rewrite app_length. lia.
+      * rewrite app_length, len2, e. unfold H0. rewrite app_length. lia.
       * intros x hx hnx.
         assert (x <> l).
         { intros ->. destruct (d l (or_introl eq_refl)) as [[h|[]]|h]; auto. unfold l0 in h. lia. }
+        rewrite nth_error_app1 by (rewrite len2, e; unfold H0; rewrite app_length; lia).
         rewrite fr2, g; auto.
         -- unfold H0. apply nth_error_app1; auto.
         -- intros [h|[]]. unfold l0 in h. lia.
-  - unfold halloc. set (H1 := H ++ [args]). set (l := length H). simpl.
-    assert (hn : nth_error H1 l = Some args).
+    + intros m mt hm. apply app_keeps. apply hmeta2. apply hmeta. unfold H0. apply app_keeps. auto.
+  - unfold halloc. set (H1 := H ++ [CList args]). set (l := length H).
+    assert (hn : nth_error H1 l = Some (CList args)).
     { unfold H1, l. rewrite nth_error_app2, Nat.sub_diag; auto. }
     assert (ha1 : owns H1 ats args Fa) by (apply owns_extend; auto).
     assert (hni : ~ In l Fa).
     { intros hx. apply (owns_bound _ _ _ _ ha) in hx. unfold l in hx. lia. }
-    destruct (hbuild_sim sh H1 l _ _ _ hn ha1 hni) as (f & hf & hsub).
-    exists f. split; auto. split.
-    + intros x hx. destruct (hsub x hx) as [<-|h]; auto.
+    destruct (hbuild_sim sh H1 l _ _ _ hn ha1 hni) as (f & ext & hb & hf & hsub).
+    destruct (hbuild sh H1 l) as [H3 v]. simpl in *. subst H3.
+    exists f. split; auto. split; [|split].
+    + intros x hx. destruct (hsub x hx) as [[<-|h]|h]; auto.
+      * right. unfold H1 in h. rewrite app_length in h. unfold l. lia.
     + split.
-      * unfold H1. rewrite app_length. lia.
-      * intros x hx _. unfold H1. apply nth_error_app1; auto.
+      * unfold H1. repeat rewrite app_length. lia.
+      * intros x hx _. unfold H1. rewrite <- app_assoc. apply nth_error_app1; auto.
+    + intros m mt hm. unfold H1. apply app_keeps. apply app_keeps. auto.
+Qed.
+
+(* the children as PropagatePositions sees them *)
+Lemma owns_shapes tp H ts vs f : owns H ts vs f -> forall H1,
+  (forall m mt, nth_error H m = Some (CMeta mt) -> nth_error H1 m = Some (CMeta mt)) ->
+  map (hshape tp H1) vs = map (pshape tp) ts.
+Proof.
+  induction 1 as [|t ts v vs f fs Ho Hos IH Hdj]; intros H1 hm; simpl; auto.
+  rewrite IH; auto. f_equal.
+  inversion Ho; subst; simpl; auto.
+  rewrite (mget_nth _ _ _ (hm _ _ H2)). auto.
+Qed.
+
+(* the in-place write of res.meta *)
+Lemma hpp_sim tp H t v f args ats :
+  own H t v f -> map (hshape tp H) args = map (pshape tp) ats ->
+  own (hpp tp H v args) (ppp tp t ats) v f /\ length (hpp tp H v args) = length H /\
+  (forall l, ~ In l f -> nth_error (hpp tp H v args) l = nth_error H l).
+Proof.
+  intros ho hs. inversion ho as [a b|h0|d l m vs mt ts fp hn hmn hos hni hmi hlm]; subst; simpl;
+    try (repeat split; auto; fail).
+  - unfold mset. rewrite hmn. rewrite (mget_nth _ _ _ hmn), hs.
+    set (mt' := MetaSpan.propagate mt (map (pshape tp) ats)).
+    assert (hfr : forall x, x <> m -> nth_error (hset H m (CMeta mt')) x = nth_error H x).
+    { intros. apply hset_other. auto. }
+    repeat split.
+    + apply own_node with (vs := vs); auto.
+      * rewrite hfr; auto.
+      * apply hset_same. eapply nth_error_lt; eauto.
+      * eapply owns_frame; eauto. intros x hx. apply hfr. intros ->. auto.
+    + apply hset_length.
+    + intros x hx. apply hfr. intros ->. apply hx. simpl. auto.
+Qed.
+
+(* one rule callback (with or without PropagatePositions) *)
+Lemma hcb_sim E r H args ats Fa :
+  owns H ats args Fa ->
+  exists f, own (fst (hcb E r H args)) (pcb E r ats) (snd (hcb E r H args)) f /\
+            sub f Fa (length H) /\ frame H (fst (hcb E r H args)) Fa.
+Proof.
+  intros ha. unfold hcb, pcb.
+  destruct (hcb_inner_sim (ce_cb E r) H args ats Fa ha) as (f & ho & hsub & hfr & hmeta).
+  destruct (hcb_inner (ce_cb E r) H args) as [H1 res]. simpl in *.
+  destruct (ce_pp E); [|exists f; auto].
+  pose proof (owns_shapes (ce_tp E) _ _ _ _ ha H1 hmeta) as hsh.
+  destruct (hpp_sim (ce_tp E) H1 _ _ _ args ats ho hsh) as (ho2 & hlen & hfr2).
+  exists f. split; auto. split; auto.
+  destruct hfr as [hl hf]. split; [lia|].
+  intros l hl' hni. rewrite hfr2; auto.
+  intros hi. destruct (hsub l hi); [auto|lia].
 Qed.
 
 (* ------------------------------------------------------------------ feed_token *)
@@ -238,9 +341,9 @@ Definition sim_res (H : heap) (F : list loc)
 Lemma lastn_droplast {A} n (l : list A) : droplast n l ++ lastn n l = l.
 Proof. unfold droplast, lastn. apply firstn_skipn. Qed.
 
-Lemma hfeed_sim T cb k : forall H ss vs ts F ty id e,
+Lemma hfeed_sim T E k : forall H ss vs ts F ty id e,
   owns H ts vs F ->
-  sim_res H F (hfeed k T cb H ss vs ty id e) (pfeed k T cb ss ts ty id e).
+  sim_res H F (hfeed k T E H ss vs ty id e) (pfeed k T E ss ts ty id e).
 Proof.
   induction k as [|k IH]; intros H ss vs ts F ty id e ho.
   - simpl. repeat split; auto. exists F. auto using sub_refl, frame_refl.
@@ -258,8 +361,8 @@ Proof.
       fold (droplast n vs) in h0. fold (lastn n vs) in ha.
       replace (firstn (length vs - n) ts) with (droplast n ts) in h0 by (unfold droplast; rewrite hlen; auto).
       replace (skipn (length vs - n) ts) with (lastn n ts) in ha by (unfold lastn; rewrite hlen; auto).
-      destruct (hcb_sim (cb r) H _ _ _ ha) as (f & hv & hsub & hfr).
-      destruct (hcb (cb r) H (lastn n vs)) as [H1 v] eqn:E. simpl in hv, hfr.
+      destruct (hcb_sim E r H _ _ _ ha) as (f & hv & hsub & hfr).
+      destruct (hcb E r H (lastn n vs)) as [H1 v] eqn:Ehcb. simpl in hv, hfr.
       assert (h01 : owns H1 (droplast n ts) (droplast n vs) F0).
       { pose proof hfr as [hfl hff]. apply (owns_frame _ _ _ _ h0). intros l hl. apply hff.
         - apply (owns_bound _ _ _ _ h0); auto.
@@ -268,7 +371,7 @@ Proof.
       { intros l hl. left. apply in_or_app; auto. }
       assert (hfr0 : frame H H1 (F0 ++ Fa)).
       { eapply frame_weaken; eauto. intros; apply in_or_app; auto. }
-      assert (h1 : owns H1 (droplast n ts ++ [pcb (cb r) (lastn n ts)]) (droplast n vs ++ [v]) (F0 ++ f)).
+      assert (h1 : owns H1 (droplast n ts ++ [pcb E r (lastn n ts)]) (droplast n vs ++ [v]) (F0 ++ f)).
       { apply owns_app; auto. apply owns_one; auto.
         intros l hl hf. destruct (hsub l hf) as [h|h]; [apply (hd l); auto|].
         apply (owns_bound _ _ _ _ h0) in hl. lia. }
@@ -289,15 +392,15 @@ Proof.
     + repeat split; auto. exists F. auto using sub_refl, frame_refl.
 Qed.
 
-Lemma hparse_from_sim T cb k toks : forall H ss vs ts F,
+Lemma hparse_from_sim T E k toks : forall H ss vs ts F,
   owns H ts vs F ->
-  sim_res H F (hparse_from k T cb H ss vs toks) (pparse_from k T cb ss ts toks).
+  sim_res H F (hparse_from k T E H ss vs toks) (pparse_from k T E ss ts toks).
 Proof.
   induction toks as [|[ty id] rest IH]; intros H ss vs ts F ho; simpl.
   - apply hfeed_sim; auto.
-  - pose proof (hfeed_sim T cb k H ss vs ts F ty id false ho) as hs.
-    destruct (hfeed k T cb H ss vs ty id false) as [[[H1 ss1] vs1] kd1].
-    destruct (pfeed k T cb ss ts ty id false) as [[qs1 ts1] qk1].
+  - pose proof (hfeed_sim T E k H ss vs ts F ty id false ho) as hs.
+    destruct (hfeed k T E H ss vs ty id false) as [[[H1 ss1] vs1] kd1].
+    destruct (pfeed k T E ss ts ty id false) as [[qs1 ts1] qk1].
     destruct hs as (a & b & F' & o' & s' & f'). unfold rss, rkd, rH, rvs, qss, qkd, qts in *. simpl in *. subst.
     destruct qk1; try (repeat split; auto; exists F'; auto; fail).
     destruct (IH H1 qs1 vs1 ts1 F' o') as (a & b & F'' & o'' & s'' & f'').
@@ -308,21 +411,21 @@ Proof.
 Qed.
 
 (* ------------------------------------------------------------------ control *)
-Lemma hfeed_ctrl T cb k : forall H ss vs ty id e,
-  (rss (hfeed k T cb H ss vs ty id e), rkd (hfeed k T cb H ss vs ty id e)) = cfeed k T ss ty e.
+Lemma hfeed_ctrl T E k : forall H ss vs ty id e,
+  (rss (hfeed k T E H ss vs ty id e), rkd (hfeed k T E H ss vs ty id e)) = cfeed k T ss ty e.
 Proof.
   induction k as [|k IH]; intros; simpl; auto.
   destruct ss as [|s ss']; auto.
   destruct (action T s ty) as [[s'|r]|]; auto.
   - destruct e; auto.
-  - destruct (hcb (cb r) H (lastn (rarity T r) vs)) as [H1 v].
+  - destruct (hcb E r H (lastn (rarity T r) vs)) as [H1 v].
     destruct (skipn (rarity T r) (s :: ss')) as [|s0 ss0]; auto.
     destruct (goto T s0 (rlhs T r)) as [s1|]; auto.
     destruct (e && (s1 =? end_state T)); auto.
 Qed.
 
-Lemma pfeed_ctrl T cb k : forall ss ts ty id e,
-  (qss (pfeed k T cb ss ts ty id e), qkd (pfeed k T cb ss ts ty id e)) = cfeed k T ss ty e.
+Lemma pfeed_ctrl T E k : forall ss ts ty id e,
+  (qss (pfeed k T E ss ts ty id e), qkd (pfeed k T E ss ts ty id e)) = cfeed k T ss ty e.
 Proof.
   induction k as [|k IH]; intros; simpl; auto.
   destruct ss as [|s ss']; auto.
@@ -334,8 +437,17 @@ Proof.
 Qed.
 
 (* ------------------------------------------------------------------ callback-free feeds write nothing *)
-Lemma hfeed_pure T cb k : (forall r, cb_filter (cb r) = None) ->
-  forall H ss vs ty id e, exists ext, rH (hfeed k T cb H ss vs ty id e) = H ++ ext.
+Definition plain_env (E : cbenv) : Prop := (forall r, cb_filter (ce_cb E r) = None) /\ ce_pp E = false.
+
+Lemma hcb_pure E r H args : plain_env E -> exists ext, fst (hcb E r H args) = H ++ ext.
+Proof.
+  intros [hc hp]. unfold hcb, hcb_inner. rewrite hc, hp. unfold halloc, hbuild.
+  destruct (hget (H ++ [CList args]) (length H)) as [|x [|y l]]; simpl;
+    try destruct (cb_expand1 (ce_cb E r)); simpl; try rewrite <- app_assoc; eauto.
+Qed.
+
+Lemma hfeed_pure T E k : plain_env E ->
+  forall H ss vs ty id e, exists ext, rH (hfeed k T E H ss vs ty id e) = H ++ ext.
 Proof.
   intros hc. induction k as [|k IH]; intros; simpl.
   - exists []. unfold rH; simpl. rewrite app_nil_r; auto.
@@ -343,20 +455,47 @@ Proof.
     destruct ss as [|s ss']; auto.
     destruct (action T s ty) as [[s'|r]|]; auto.
     + destruct e; auto.
-    + unfold hcb. rewrite hc. unfold halloc.
-      set (H1 := H ++ [lastn (rarity T r) vs]).
-      assert (h1 : exists ext, H1 = H ++ ext) by (eexists; reflexivity).
+    + destruct (hcb_pure E r H (lastn (rarity T r) vs) hc) as [ext1 hx1].
+      destruct (hcb E r H (lastn (rarity T r) vs)) as [H1 v]. simpl in hx1. subst H1.
+      assert (h1 : exists ext, H ++ ext1 = H ++ ext) by eauto.
       destruct (skipn (rarity T r) (s :: ss')) as [|s0 ss0]; auto.
       destruct (goto T s0 (rlhs T r)) as [s1|]; auto.
       destruct (e && (s1 =? end_state T)); auto.
-      match goal with |- exists _, rH (hfeed k T cb H1 ?a ?b ty id e) = _ =>
-        destruct (IH H1 a b ty id e) as [ext hx] end.
-      rewrite hx. unfold H1. rewrite <- app_assoc. eauto.
+      match goal with |- exists _, rH (hfeed k T E (H ++ ext1) ?a ?b ty id e) = _ =>
+        destruct (IH (H ++ ext1) a b ty id e) as [ext hx] end.
+      rewrite hx. rewrite <- app_assoc. eauto.
 Qed.
 
+Lemma env_none_plain : plain_env env_none.
+Proof. split; auto. Qed.
+
+
 (* ------------------------------------------------------------------ several parsers on one heap *)
+(* the code as it is now: copies deep by default, Meta objects copied, lexer thread rebound *)
+Definition impl_fixed : impl := {| im_deep := true; im_meta := true; im_lex := true |}.
+
+(* parser p denotes the immutable parser pp: same stacks (values with their metas read off the
+   heap), both lexer references are one thread of its own standing at pp's position; f = that
+   thread and everything the values reach *)
 Definition prel (H : heap) (pp : pparser) (p : parser) (f : list loc) : Prop :=
-  p_imm p = pp_imm pp /\ p_ss p = pp_ss pp /\ owns H (pp_ts pp) (p_vs p) f.
+  p_imm p = pp_imm pp /\ p_ss p = pp_ss pp /\ p_sl p = p_lt p /\
+  nth_error H (p_lt p) = Some (CLex (pp_pos pp)) /\
+  exists fv, f = p_lt p :: fv /\ ~ In (p_lt p) fv /\ owns H (pp_ts pp) (p_vs p) fv.
+
+Lemma prel_bound H pp p f : prel H pp p f -> forall l, In l f -> l < length H.
+Proof.
+  intros (_ & _ & _ & hl & fv & -> & _ & ho) l [<-|h].
+  - eapply nth_error_lt; eauto.
+  - eapply owns_bound; eauto.
+Qed.
+
+Lemma prel_frame H pp p f H' : prel H pp p f ->
+  (forall l, In l f -> nth_error H' l = nth_error H l) -> prel H' pp p f.
+Proof.
+  intros (a & b & c & hl & fv & -> & hni & ho) hf. repeat split; auto.
+  - rewrite hf; simpl; auto.
+  - exists fv. repeat split; auto. eapply owns_frame; eauto. intros; apply hf; simpl; auto.
+Qed.
 
 (* every parser denotes its immutable counterpart and no two parsers reach a common location *)
 Inductive wowns (H : heap) : list pparser -> list parser -> list loc -> Prop :=
@@ -367,15 +506,15 @@ Inductive wowns (H : heap) : list pparser -> list parser -> list loc -> Prop :=
 
 Lemma wowns_bound H pps ps F : wowns H pps ps F -> forall l, In l F -> l < length H.
 Proof.
-  induction 1 as [|pp pps p ps f fs [_ [_ ho]] hw IH hd]; simpl; [tauto|].
-  intros l hl. apply in_app_or in hl. destruct hl; auto. eapply owns_bound; eauto.
+  induction 1 as [|pp pps p ps f fs hp hw IH hd]; simpl; [tauto|].
+  intros l hl. apply in_app_or in hl. destruct hl; auto. eapply prel_bound; eauto.
 Qed.
 
 Lemma wowns_frame H pps ps F : wowns H pps ps F -> forall H',
   (forall l, In l F -> nth_error H' l = nth_error H l) -> wowns H' pps ps F.
 Proof.
-  induction 1 as [|pp pps p ps f fs [hi [hs ho]] hw IH hd]; intros H' hf; constructor; auto.
-  - repeat split; auto. eapply owns_frame; eauto. intros; apply hf; apply in_or_app; auto.
+  induction 1 as [|pp pps p ps f fs hp hw IH hd]; intros H' hf; constructor; auto.
+  - eapply prel_frame; eauto. intros; apply hf; apply in_or_app; auto.
   - apply IH. intros; apply hf; apply in_or_app; auto.
 Qed.
 
@@ -431,12 +570,11 @@ Proof.
       destruct (d H' pp' p' f' hp' hs hfr) as (F' & hw' & hs').
       exists (f0 ++ F'). split.
       * simpl. constructor; auto.
-        -- destruct hp as [x [y z]]. repeat split; auto.
-           eapply owns_frame; eauto. intros l hl. destruct hfr as [_ hf]. apply hf.
-           ++ eapply owns_bound; eauto.
+        -- apply (prel_frame _ _ _ _ _ hp). intros l hl. destruct hfr as [_ hf]. apply hf.
+           ++ apply (prel_bound _ _ _ _ hp); auto.
            ++ intros h0. apply (hd l); auto.
         -- intros l h1 h2. destruct (hs' l h2) as [h|h]; [apply (hd l); auto|].
-           destruct hp as [_ [_ z]]. apply (owns_bound _ _ _ _ z) in h1. lia.
+           apply (prel_bound _ _ _ _ hp) in h1. lia.
       * intros l hx. apply in_app_or in hx. destruct hx as [hx|hx].
         -- left; apply in_or_app; auto.
         -- destruct (hs' l hx); [left; apply in_or_app; auto|auto].
@@ -448,49 +586,96 @@ Proof.
   rewrite (wowns_length _ _ _ _ hw). auto.
 Qed.
 
-(* ------------------------------------------------------------------ accepts *)
-Lemma copy_parser_deep_spec H p ts f : owns H ts (p_vs p) f ->
-  exists ext f', fst (copy_parser true H p) = H ++ ext /\
-    p_imm (snd (copy_parser true H p)) = p_imm p /\ p_ss (snd (copy_parser true H p)) = p_ss p /\
-    owns (H ++ ext) ts (p_vs (snd (copy_parser true H p))) f' /\ fresh_above (length H) f'.
+(* an operation on parser p's values (and possibly its lexer position) that stayed inside p's footprint *)
+Lemma prel_inplace H pp p f H' ss2 vs2 ts2 pos2 F' fv :
+  prel H pp p f -> f = p_lt p :: fv ->
+  owns H' ts2 vs2 F' -> sub F' fv (length H) ->
+  length H <= length H' ->
+  (forall l, l < length H -> ~ In l (p_lt p :: fv) -> nth_error H' l = nth_error H l) ->
+  nth_error H' (p_lt p) = Some (CLex pos2) ->
+  prel H' {| pp_imm := pp_imm pp; pp_ss := ss2; pp_ts := ts2; pp_pos := pos2 |} (with_state p ss2 vs2) (p_lt p :: F') /\
+  sub (p_lt p :: F') f (length H) /\ frame H H' f.
 Proof.
-  intros ho. destruct (deepcopy_spec _ _ _ _ ho) as (ext & f' & a & b & c).
-  unfold copy_parser. destruct (deepcopy H (p_vs p)) as [H1 vs1]. simpl in *. subst H1.
-  exists ext, f'. auto.
+  intros (a & b & c & hl & fv0 & e0 & hni & ho) -> ho' hs hlen hfr hlex.
+  inversion e0; subst fv0.
+  split; [|split].
+  - repeat split; simpl; auto. exists F'. repeat split; auto.
+    intros hi. destruct (hs _ hi) as [h|h]; auto. apply nth_error_lt in hl. lia.
+  - intros l [<-|hx]; [left; simpl; auto|]. destruct (hs l hx); [left; simpl; auto|auto].
+  - split; auto.
 Qed.
 
-Lemma trial_spec k T H p t ts f : owns H ts (p_vs p) f ->
-  (exists ext, fst (trial true k T H p t) = H ++ ext) /\
-  snd (trial true k T H p t) = snd (cfeed k T (p_ss p) t (t =? END)).
+(* ------------------------------------------------------------------ copies *)
+Lemma copy_parser_deep_spec H pp p f : prel H pp p f ->
+  exists ext f', fst (copy_parser impl_fixed true H p) = H ++ ext /\
+    prel (H ++ ext) pp (snd (copy_parser impl_fixed true H p)) f' /\ fresh_above (length H) f' /\
+    p_ss (snd (copy_parser impl_fixed true H p)) = p_ss p.
 Proof.
-  intros ho. unfold trial. change (copy_parser false H p) with (H, p). cbv beta iota.
-  assert (hh : exists ext ts' f', fst (if p_imm p then copy_parser true H p else (H, p)) = H ++ ext /\
-            p_ss (snd (if p_imm p then copy_parser true H p else (H, p))) = p_ss p /\
-            owns (H ++ ext) ts' (p_vs (snd (if p_imm p then copy_parser true H p else (H, p)))) f').
-  { destruct (p_imm p).
-    - destruct (copy_parser_deep_spec _ _ _ _ ho) as (ext & f' & a & b & c & d & e). exists ext, ts, f'. auto.
-    - exists [], ts, f. simpl. rewrite app_nil_r. auto. }
-  destruct hh as (ext & ts' & f' & a & b & c).
-  destruct (if p_imm p then copy_parser true H p else (H, p)) as [H1 p1]. simpl in a, b, c. subst H1.
+  intros (a & b & c & hl & fv & -> & hni & ho).
+  unfold copy_parser, halloc. simpl im_meta. simpl im_lex. cbv iota.
+  rewrite (lget_nth _ _ _ hl).
+  set (H0 := H ++ [CLex (pp_pos pp)]).
+  destruct (deepcopy_spec H0 _ _ _ (owns_extend _ _ _ _ [CLex (pp_pos pp)] ho)) as (ext & f' & e1 & o1 & fr).
+  destruct (deepcopy true H0 (p_vs p)) as [H1 vs1]. simpl in *. subst H1.
+  exists ([CLex (pp_pos pp)] ++ ext), (length H :: f'). unfold H0 in *. rewrite <- app_assoc in *.
+  repeat split; simpl; auto.
+  - rewrite nth_error_app2, Nat.sub_diag; auto.
+  - exists f'. repeat split; auto. intros hi. apply fr in hi. rewrite app_length in hi. simpl in hi. lia.
+  - intros l [<-|hx]; auto. apply fr in hx. rewrite app_length in hx. lia.
+Qed.
+
+(* any copy (deep or not) only appends to the heap and keeps the state stack; its values are owned *)
+Lemma copy_parser_ext deep H p ts fv : owns H ts (p_vs p) fv ->
+  exists ext fv', fst (copy_parser impl_fixed deep H p) = H ++ ext /\
+    p_ss (snd (copy_parser impl_fixed deep H p)) = p_ss p /\
+    p_imm (snd (copy_parser impl_fixed deep H p)) = p_imm p /\
+    owns (H ++ ext) ts (p_vs (snd (copy_parser impl_fixed deep H p))) fv'.
+Proof.
+  intros ho. unfold copy_parser, halloc. simpl im_meta. simpl im_lex. cbv iota.
+  set (c := CLex (lget H (p_lt p))).
+  destruct deep.
+  - destruct (deepcopy_spec (H ++ [c]) _ _ _ (owns_extend _ _ _ _ [c] ho)) as (ext & f' & e1 & o1 & fr).
+    destruct (deepcopy true (H ++ [c]) (p_vs p)) as [H1 vs1]. simpl in *. subst H1.
+    exists ([c] ++ ext), f'. rewrite <- app_assoc in *. auto.
+  - exists [c], fv. simpl. repeat split; auto. apply owns_extend; auto.
+Qed.
+
+(* ------------------------------------------------------------------ accepts *)
+Lemma trial_spec k T H p t ts f : owns H ts (p_vs p) f ->
+  (exists ext, fst (trial impl_fixed k T H p t) = H ++ ext) /\
+  snd (trial impl_fixed k T H p t) = snd (cfeed k T (p_ss p) t (t =? END)).
+Proof.
+  intros ho. unfold trial. change (im_deep impl_fixed) with true.
+  destruct (copy_parser_ext false H p ts f ho) as (e0 & f0 & a0 & b0 & c0 & o0).
+  destruct (copy_parser impl_fixed false H p) as [H0 p0]. simpl in a0, b0, c0, o0. subst H0.
+  match goal with |- context [let (_, _) := ?X in _] =>
+    assert (hh : exists ext ts' f', fst X = H ++ ext /\ p_ss (snd X) = p_ss p /\
+                                    owns (H ++ ext) ts' (p_vs (snd X)) f');
+    [| destruct hh as (ext & ts' & f' & a & b & c); destruct X as [H1 p1] ] end.
+  { destruct (p_imm p0).
+    - destruct (copy_parser_ext true (H ++ e0) p0 ts f0 o0) as (e1 & f1 & a1 & b1 & c1 & o1).
+      exists (e0 ++ e1), ts, f1. rewrite a1, b1, app_assoc. auto.
+    - exists e0, ts, f0. simpl. auto. }
+  simpl in a, b, c. subst H1.
   unfold hifeed.
-  pose proof (hfeed_ctrl T (fun _ => cb_none) k (H ++ ext) (p_ss p1) (p_vs p1) t 0 (t =? END)) as hc.
-  destruct (hfeed_pure T (fun _ => cb_none) k (fun _ => eq_refl) (H ++ ext) (p_ss p1) (p_vs p1) t 0 (t =? END)) as [ext2 hx].
-  destruct (hfeed k T (fun _ : nat => cb_none) (H ++ ext) (p_ss p1) (p_vs p1) t 0 (t =? END)) as [[[H2 ss2] vs2] kd].
+  pose proof (hfeed_ctrl T env_none k (H ++ ext) (p_ss p1) (p_vs p1) t 0 (t =? END)) as hc.
+  destruct (hfeed_pure T env_none k env_none_plain (H ++ ext) (p_ss p1) (p_vs p1) t 0 (t =? END)) as [ext2 hx].
+  destruct (hfeed k T env_none (H ++ ext) (p_ss p1) (p_vs p1) t 0 (t =? END)) as [[[H2 ss2] vs2] kd].
   unfold rH, rss, rkd in *. simpl in *. subst H2. rewrite b in hc. rewrite <- hc. simpl.
   split; auto. rewrite <- app_assoc. eauto.
 Qed.
 
 Lemma accepts_loop_spec k T p ts f tl : forall H, owns H ts (p_vs p) f ->
-  (exists ext, fst (accepts_loop true k T H p tl) = H ++ ext) /\
-  snd (accepts_loop true k T H p tl) =
+  (exists ext, fst (accepts_loop impl_fixed k T H p tl) = H ++ ext) /\
+  snd (accepts_loop impl_fixed k T H p tl) =
     filter (fun t => kind_ok (snd (cfeed k T (p_ss p) t (t =? END)))) tl.
 Proof.
   induction tl as [|t tl IH]; intros H ho; simpl.
   - split; auto. exists []. rewrite app_nil_r; auto.
   - destruct (trial_spec k T H p t ts f ho) as [[e1 h1] h2].
-    destruct (trial true k T H p t) as [H1 kd]. simpl in h1, h2. subst H1 kd.
+    destruct (trial impl_fixed k T H p t) as [H1 kd]. simpl in h1, h2. subst H1 kd.
     destruct (IH (H ++ e1) (owns_extend _ _ _ _ _ ho)) as [[e2 h3] h4].
-    destruct (accepts_loop true k T (H ++ e1) p tl) as [H2 acc]. simpl in *. subst H2 acc.
+    destruct (accepts_loop impl_fixed k T (H ++ e1) p tl) as [H2 acc]. simpl in *. subst H2 acc.
     split; auto. rewrite <- app_assoc. eauto.
 Qed.
 
@@ -501,47 +686,61 @@ Lemma paccepts_eq k T pp p : p_ss p = pp_ss pp ->
   filter (fun t => kind_ok (snd (cfeed k T (p_ss p) t (t =? END)))) (choices T p) = paccepts k T pp.
 Proof. intros h. unfold paccepts, choices. rewrite h. auto. Qed.
 
-(* appending the outcome of "deep copy, then an operation on the copy" *)
-Lemma append_after_copy H pps ps F p ts f
-      (op_h : heap -> parser -> heap * list nat * list value * kind)
-      (op_p : list nat * list ptree * kind) imm :
-  wowns H pps ps F -> owns H ts (p_vs p) f ->
-  (forall H1 p1 f1, owns H1 ts (p_vs p1) f1 -> p_ss p1 = p_ss p -> sim_res H1 f1 (op_h H1 p1) op_p) ->
-  let c := copy_parser true H p in
-  let r := op_h (fst c) (snd c) in
-  rss r = qss op_p /\ rkd r = qkd op_p /\
-  exists F', wowns (rH r) (pps ++ [{| pp_imm := imm; pp_ss := qss op_p; pp_ts := qts op_p |}])
-                   (ps ++ [{| p_imm := imm; p_ss := rss r; p_vs := rvs r |}]) F'.
+(* an operation on the stacks of p that is simulated on immutable trees *)
+Lemma prel_valop H pp p f r q :
+  prel H pp p f ->
+  (forall fv, owns H (pp_ts pp) (p_vs p) fv -> sim_res H fv r q) ->
+  rss r = qss q /\ rkd r = qkd q /\
+  exists f', prel (rH r) {| pp_imm := pp_imm pp; pp_ss := qss q; pp_ts := qts q; pp_pos := pp_pos pp |}
+                  (with_state p (rss r) (rvs r)) f' /\
+             sub f' f (length H) /\ frame H (rH r) f.
 Proof.
-  intros hw ho hop c r.
-  destruct (copy_parser_deep_spec _ _ _ _ ho) as (ext & f1 & a & b & c1 & d & e).
-  fold c in a, b, c1, d.
-  destruct (hop (fst c) (snd c) f1 ltac:(rewrite a; exact d) c1) as (x & y & F' & o' & s' & [fl ff]).
-  fold r in x, y, o', fl, ff.
+  intros hp hsim. pose proof hp as (a & b & c & hl & fv & -> & hni & ho).
+  destruct (hsim fv ho) as (x & y & F' & o' & s' & [fl ff]).
   split; auto. split; auto.
-  rewrite a in *.
-  apply wowns_append with (F := F) (H := H) (f := F'); auto.
-  - intros l hl. rewrite ff.
-    + apply nth_error_app1; auto.
-    + rewrite app_length; lia.
-    + intros hi. apply e in hi. lia.
-  - repeat split; auto.
-  - intros l hl. destruct (s' l hl) as [h|h]; [auto|]. rewrite app_length in h. lia.
+  destruct (prel_inplace H pp p _ (rH r) (qss q) (rvs r) (qts q) (pp_pos pp) F' fv hp eq_refl o' s' fl) as (h1 & h2 & h3).
+  - intros l hl' hn. apply ff; auto. intros hi. apply hn. simpl. auto.
+  - rewrite ff; auto. eapply nth_error_lt; eauto.
+  - exists (p_lt p :: F'). rewrite x. auto.
 Qed.
 
-Lemma hparse_from_cons k T cb H ss vs ty id rest :
-  hparse_from k T cb H ss vs ((ty, id) :: rest) =
-  let '(H1, ss1, vs1, kd) := hfeed k T cb H ss vs ty id false in
-  match kd with KShift => hparse_from k T cb H1 ss1 vs1 rest | _ => (H1, ss1, vs1, kd) end.
+(* the lexer thread of p advances *)
+Lemma prel_lset H pp p f n :
+  prel H pp p f ->
+  prel (lset H (p_lt p) n) {| pp_imm := pp_imm pp; pp_ss := pp_ss pp; pp_ts := pp_ts pp; pp_pos := n |} p f /\
+  length (lset H (p_lt p) n) = length H /\
+  (forall l, l <> p_lt p -> nth_error (lset H (p_lt p) n) l = nth_error H l).
+Proof.
+  intros (a & b & c & hl & fv & -> & hni & ho). unfold lset. rewrite hl.
+  assert (hfr : forall l, l <> p_lt p -> nth_error (hset H (p_lt p) (CLex n)) l = nth_error H l).
+  { intros. apply hset_other. auto. }
+  repeat split; simpl; auto.
+  - apply hset_same. eapply nth_error_lt; eauto.
+  - exists fv. repeat split; auto. eapply owns_frame; eauto. intros l hx. apply hfr. intros ->. auto.
+  - apply hset_length.
+Qed.
+
+Lemma prel_with_imm H pp p f b :
+  prel H pp p f ->
+  prel H {| pp_imm := b; pp_ss := pp_ss pp; pp_ts := pp_ts pp; pp_pos := pp_pos pp |} (with_imm p b) f.
+Proof. intros (a & b0 & c & hl & fv & -> & hni & ho). repeat split; simpl; auto. exists fv. auto. Qed.
+
+Lemma pp_eta pp : {| pp_imm := pp_imm pp; pp_ss := pp_ss pp; pp_ts := pp_ts pp; pp_pos := pp_pos pp |} = pp.
+Proof. destruct pp; auto. Qed.
+
+Lemma hparse_from_cons k T E H ss vs ty id rest :
+  hparse_from k T E H ss vs ((ty, id) :: rest) =
+  let '(H1, ss1, vs1, kd) := hfeed k T E H ss vs ty id false in
+  match kd with KShift => hparse_from k T E H1 ss1 vs1 rest | _ => (H1, ss1, vs1, kd) end.
 Proof. reflexivity. Qed.
-Lemma hparse_from_nil k T cb H ss vs : hparse_from k T cb H ss vs [] = hfeed k T cb H ss vs END 0 true.
+Lemma hparse_from_nil k T E H ss vs : hparse_from k T E H ss vs [] = hfeed k T E H ss vs END 0 true.
 Proof. reflexivity. Qed.
-Lemma pparse_from_cons k T cb ss ts ty id rest :
-  pparse_from k T cb ss ts ((ty, id) :: rest) =
-  let '(ss1, ts1, kd) := pfeed k T cb ss ts ty id false in
-  match kd with KShift => pparse_from k T cb ss1 ts1 rest | _ => (ss1, ts1, kd) end.
+Lemma pparse_from_cons k T E ss ts ty id rest :
+  pparse_from k T E ss ts ((ty, id) :: rest) =
+  let '(ss1, ts1, kd) := pfeed k T E ss ts ty id false in
+  match kd with KShift => pparse_from k T E ss1 ts1 rest | _ => (ss1, ts1, kd) end.
 Proof. reflexivity. Qed.
-Lemma pparse_from_nil k T cb ss ts : pparse_from k T cb ss ts [] = pfeed k T cb ss ts END 0 true.
+Lemma pparse_from_nil k T E ss ts : pparse_from k T E ss ts [] = pfeed k T E ss ts END 0 true.
 Proof. reflexivity. Qed.
 
 Arguments copy_parser : simpl never.
@@ -550,121 +749,136 @@ Arguments pifeed : simpl never.
 Arguments accepts_loop : simpl never.
 Arguments hparse_from : simpl never.
 Arguments pparse_from : simpl never.
+Arguments cparse_cnt : simpl never.
+Arguments lset : simpl never.
+Arguments lget : simpl never.
 
-Lemma wstep_sim k T cb w pps o F :
+Ltac unproj := unfold rss, rkd, rH, rvs, qss, qkd, qts in *; simpl in *.
+
+Lemma wstep_sim k T E input w pps o F :
   wowns (w_heap w) pps (w_ps w) F -> all_deep o ->
-  (exists F', wowns (w_heap (fst (wstep true k T cb w o))) (fst (pstep k T cb pps o))
-                    (w_ps (fst (wstep true k T cb w o))) F') /\
-  snd (wstep true k T cb w o) = snd (pstep k T cb pps o).
+  (exists F', wowns (w_heap (fst (wstep impl_fixed k T E input w o))) (fst (pstep k T E input pps o))
+                    (w_ps (fst (wstep impl_fixed k T E input w o))) F') /\
+  snd (wstep impl_fixed k T E input w o) = snd (pstep k T E input pps o).
 Proof.
   intros hw hdeep. destruct w as [H ps]. simpl in hw.
   pose proof (wowns_length _ _ _ _ hw) as hlen.
-  destruct o as [i ty id|i deep|i|i|i|i toks]; simpl.
+  destruct o as [i ty id|i|i deep|i|i|i|i]; simpl;
+    (destruct (nth_error ps i) as [p|] eqn:En;
+     [|rewrite (wowns_none _ _ _ _ _ hw En); simpl; eauto]);
+    destruct (wowns_set _ _ _ _ hw i p En) as (pp & f & a & hp & c & d);
+    pose proof hp as (hi & hs & hsl & hlx & fv & ef & hnf & ho);
+    rewrite a.
   - (* feed *)
-    destruct (nth_error ps i) as [p|] eqn:En.
-    2:{ rewrite (wowns_none _ _ _ _ _ hw En). simpl. eauto. }
-    destruct (wowns_set _ _ _ _ hw i p En) as (pp & f & a & (hi & hs & ho) & c & d).
-    rewrite a. rewrite <- hi.
+    rewrite <- hi.
     destruct (p_imm p) eqn:Eimm.
-    + pose proof (append_after_copy H pps ps F p (pp_ts pp) f
-                   (fun H1 p1 => hifeed k T cb H1 (p_ss p1) (p_vs p1) ty id)
-                   (pifeed k T cb (pp_ss pp) (pp_ts pp) ty id) true hw ho) as hh.
-      simpl in hh.
-      destruct hh as (x & y & F' & hw').
-      { intros H1 p1 f1 h1 h2. rewrite h2, hs. apply hfeed_sim; auto. }
-      destruct (copy_parser true H p) as [H1 c0]. simpl in *.
-      destruct (hifeed k T cb H1 (p_ss c0) (p_vs c0) ty id) as [[[H2 ss2] vs2] kd].
-      destruct (pifeed k T cb (pp_ss pp) (pp_ts pp) ty id) as [[qs2 ts2] qk].
-      unfold rss, rkd, rH, rvs, qss, qkd, qts in *. simpl in *. subst. rewrite hlen. eauto.
-    + pose proof (hfeed_sim T cb k H (p_ss p) (p_vs p) (pp_ts pp) f ty id (ty =? END) ho) as hh.
-      unfold hifeed, pifeed. rewrite <- hs.
-      destruct (hfeed k T cb H (p_ss p) (p_vs p) ty id (ty =? END)) as [[[H2 ss2] vs2] kd].
-      destruct (pfeed k T cb (p_ss p) (pp_ts pp) ty id (ty =? END)) as [[qs2 ts2] qk].
-      destruct hh as (x & y & F' & o' & s' & f').
-      unfold rss, rkd, rH, rvs, qss, qkd, qts in *. simpl in *. subst.
-      destruct (d H2 {| pp_imm := false; pp_ss := qs2; pp_ts := ts2 |}
-                  {| p_imm := false; p_ss := qs2; p_vs := vs2 |} F') as (F'' & hw'' & _); auto.
-      { repeat split; auto. }
-      eauto.
+    + destruct (copy_parser_deep_spec H pp p f hp) as (ext & f1 & e1 & hp1 & fr1 & ess).
+      destruct (copy_parser impl_fixed true H p) as [H1 c0]. simpl in e1, hp1, ess. subst H1.
+      pose proof hp1 as (hi1 & hs1 & _).
+      destruct (prel_valop (H ++ ext) pp c0 f1
+                  (hifeed k T E (H ++ ext) (p_ss c0) (p_vs c0) ty id)
+                  (pifeed k T E (pp_ss pp) (pp_ts pp) ty id) hp1) as (x & y & f2 & hp2 & s2 & [fl ff]).
+      { intros fv0 h0. rewrite hs1. apply hfeed_sim; auto. }
+      change (im_deep impl_fixed) with true.
+      destruct (hifeed k T E (H ++ ext) (p_ss c0) (p_vs c0) ty id) as [[[H2 ss2] vs2] kd].
+      destruct (pifeed k T E (pp_ss pp) (pp_ts pp) ty id) as [[qs2 ts2] qk].
+      unproj. subst. rewrite hlen. split; auto.
+      rewrite <- hi in hp2.
+      apply wowns_append with (F := F) (H := H) (f := f2); auto.
+      * intros l hl. rewrite ff.
+        -- apply nth_error_app1; auto.
+        -- rewrite app_length; lia.
+        -- intros hx. apply fr1 in hx. lia.
+      * intros l hl. destruct (s2 l hl) as [h|h]; [auto|]. rewrite app_length in h. lia.
+    + destruct (prel_valop H pp p f
+                  (hifeed k T E H (p_ss p) (p_vs p) ty id)
+                  (pifeed k T E (pp_ss pp) (pp_ts pp) ty id) hp) as (x & y & f2 & hp2 & s2 & fr2).
+      { intros fv0 h0. rewrite hs. apply hfeed_sim; auto. }
+      destruct (hifeed k T E H (p_ss p) (p_vs p) ty id) as [[[H2 ss2] vs2] kd].
+      destruct (pifeed k T E (pp_ss pp) (pp_ts pp) ty id) as [[qs2 ts2] qk].
+      unproj. subst. rewrite <- hi in hp2.
+      destruct (d _ _ _ _ hp2 s2 fr2) as (F'' & hw'' & _). eauto.
+  - (* step *)
+    rewrite <- hi.
+    destruct (p_imm p) eqn:Eimm; [simpl; eauto|].
+    rewrite (lget_nth _ _ _ hlx).
+    destruct (nth_error input (pp_pos pp)) as [[ty id]|] eqn:Ein; [|simpl; eauto].
+    destruct (prel_lset H pp p f (S (pp_pos pp)) hp) as (hp0 & len0 & fr0).
+    set (H0 := lset H (p_lt p) (S (pp_pos pp))) in *.
+    destruct (prel_valop H0 _ p f
+                (hifeed k T E H0 (p_ss p) (p_vs p) ty id)
+                (pifeed k T E (pp_ss pp) (pp_ts pp) ty id) hp0) as (x & y & f2 & hp2 & s2 & [fl ff]).
+    { intros fv0 h0. rewrite hs. apply hfeed_sim; auto. }
+    destruct (hifeed k T E H0 (p_ss p) (p_vs p) ty id) as [[[H2 ss2] vs2] kd].
+    destruct (pifeed k T E (pp_ss pp) (pp_ts pp) ty id) as [[qs2 ts2] qk].
+    unproj. subst. rewrite <- hi in hp2. rewrite len0 in *.
+    destruct (d _ _ _ _ hp2 s2) as (F'' & hw'' & _); eauto.
+    split; auto. intros l hl hn. rewrite ff, fr0; auto. intros ->. apply hn. simpl. auto.
   - (* copy *)
     destruct deep; [|contradiction].
-    destruct (nth_error ps i) as [p|] eqn:En.
-    2:{ rewrite (wowns_none _ _ _ _ _ hw En). simpl. eauto. }
-    destruct (wowns_set _ _ _ _ hw i p En) as (pp & f & a & (hi & hs & ho) & c & d).
-    rewrite a.
-    destruct (copy_parser_deep_spec _ _ _ _ ho) as (ext & f1 & e1 & e2 & e3 & e4 & e5).
-    destruct (copy_parser true H p) as [H1 c0]. simpl in *. subst H1. rewrite hlen. split; auto.
+    destruct (copy_parser_deep_spec H pp p f hp) as (ext & f1 & e1 & hp1 & fr1 & ess).
+    destruct (copy_parser impl_fixed true H p) as [H1 c0]. simpl in *. subst H1. rewrite hlen. split; auto.
     apply wowns_append with (F := F) (H := H) (f := f1); auto.
-    + intros l hl. apply nth_error_app1; auto.
-    + repeat split; auto; congruence.
+    intros l hl. apply nth_error_app1; auto.
   - (* as_immutable *)
-    destruct (nth_error ps i) as [p|] eqn:En.
-    2:{ rewrite (wowns_none _ _ _ _ _ hw En). simpl. eauto. }
-    destruct (wowns_set _ _ _ _ hw i p En) as (pp & f & a & (hi & hs & ho) & c & d).
-    rewrite a.
-    destruct (copy_parser_deep_spec _ _ _ _ ho) as (ext & f1 & e1 & e2 & e3 & e4 & e5).
-    destruct (copy_parser true H p) as [H1 c0]. simpl in *. subst H1. rewrite hlen. split; auto.
+    change (im_deep impl_fixed) with true.
+    destruct (copy_parser_deep_spec H pp p f hp) as (ext & f1 & e1 & hp1 & fr1 & ess).
+    destruct (copy_parser impl_fixed true H p) as [H1 c0]. simpl in *. subst H1. rewrite hlen. split; auto.
     apply wowns_append with (F := F) (H := H) (f := f1); auto.
     + intros l hl. apply nth_error_app1; auto.
-    + repeat split; auto; simpl; congruence.
+    + apply prel_with_imm; auto.
   - (* as_mutable *)
-    destruct (nth_error ps i) as [p|] eqn:En.
-    2:{ rewrite (wowns_none _ _ _ _ _ hw En). simpl. eauto. }
-    destruct (wowns_set _ _ _ _ hw i p En) as (pp & f & a & (hi & hs & ho) & c & d).
-    rewrite a.
-    destruct (copy_parser_deep_spec _ _ _ _ ho) as (ext & f1 & e1 & e2 & e3 & e4 & e5).
-    destruct (copy_parser true H p) as [H1 c0]. simpl in *. subst H1. rewrite hlen. split; auto.
+    change (im_deep impl_fixed) with true.
+    destruct (copy_parser_deep_spec H pp p f hp) as (ext & f1 & e1 & hp1 & fr1 & ess).
+    destruct (copy_parser impl_fixed true H p) as [H1 c0]. simpl in *. subst H1. rewrite hlen. split; auto.
     apply wowns_append with (F := F) (H := H) (f := f1); auto.
     + intros l hl. apply nth_error_app1; auto.
-    + repeat split; auto; simpl; congruence.
+    + apply prel_with_imm; auto.
   - (* accepts *)
-    destruct (nth_error ps i) as [p|] eqn:En.
-    2:{ rewrite (wowns_none _ _ _ _ _ hw En). simpl. eauto. }
-    destruct (wowns_set _ _ _ _ hw i p En) as (pp & f & a & (hi & hs & ho) & c & d).
-    rewrite a.
     destruct (accepts_loop_spec k T p _ _ (choices T p) H ho) as [[ext e1] e2].
-    destruct (accepts_loop true k T H p (choices T p)) as [H1 acc]. simpl in *. subst H1 acc.
+    destruct (accepts_loop impl_fixed k T H p (choices T p)) as [H1 acc]. simpl in *. subst H1 acc.
     rewrite (paccepts_eq k T pp p hs). split; auto.
     exists F. eapply wowns_frame; eauto. intros l hl. apply nth_error_app1. eapply wowns_bound; eauto.
   - (* resume_parse *)
-    destruct (nth_error ps i) as [p|] eqn:En.
-    2:{ rewrite (wowns_none _ _ _ _ _ hw En). simpl. eauto. }
-    destruct (wowns_set _ _ _ _ hw i p En) as (pp & f & a & (hi & hs & ho) & c & d).
-    rewrite a.
-    pose proof (hparse_from_sim T cb k toks H (p_ss p) (p_vs p) (pp_ts pp) f ho) as hh.
-    rewrite <- hs.
-    destruct (hparse_from k T cb H (p_ss p) (p_vs p) toks) as [[[H2 ss2] vs2] kd].
-    destruct (pparse_from k T cb (p_ss p) (pp_ts pp) toks) as [[qs2 ts2] qk].
-    destruct hh as (x & y & F' & o' & s' & f').
-    unfold rss, rkd, rH, rvs, qss, qkd, qts in *. simpl in *. subst.
-    destruct (d H2 {| pp_imm := pp_imm pp; pp_ss := qs2; pp_ts := ts2 |}
-                {| p_imm := p_imm p; p_ss := qs2; p_vs := vs2 |} F') as (F'' & hw'' & _); auto.
-    { repeat split; auto. }
-    eauto.
+    rewrite hsl, (lget_nth _ _ _ hlx), <- hs.
+    set (rest := skipn (pp_pos pp) input).
+    destruct (prel_valop H pp p f
+                (hparse_from k T E H (p_ss p) (p_vs p) rest)
+                (pparse_from k T E (p_ss p) (pp_ts pp) rest) hp) as (x & y & f2 & hp2 & s2 & [fl ff]).
+    { intros fv0 h0. apply hparse_from_sim; auto. }
+    destruct (hparse_from k T E H (p_ss p) (p_vs p) rest) as [[[H2 ss2] vs2] kd].
+    destruct (pparse_from k T E (p_ss p) (pp_ts pp) rest) as [[qs2 ts2] qk].
+    unproj. subst.
+    set (n := pp_pos pp + cparse_cnt k T (p_ss p) rest).
+    destruct (prel_lset H2 _ (with_state p qs2 vs2) f2 n hp2) as (hp3 & len3 & fr3).
+    simpl in hp3, len3, fr3.
+    destruct (d (lset H2 (p_lt p) n) _ _ _ hp3 s2) as (F'' & hw'' & _); eauto.
+    split; [lia|]. intros l hl hn. rewrite fr3, ff; auto. intros ->. apply hn. simpl. auto.
 Qed.
 
-Lemma wrun_sim k T cb os : forall w pps F,
+Lemma wrun_sim k T E input os : forall w pps F,
   wowns (w_heap w) pps (w_ps w) F -> Forall all_deep os ->
-  (exists F', wowns (w_heap (fst (wrun true k T cb w os))) (fst (prun k T cb pps os))
-                    (w_ps (fst (wrun true k T cb w os))) F') /\
-  snd (wrun true k T cb w os) = snd (prun k T cb pps os).
+  (exists F', wowns (w_heap (fst (wrun impl_fixed k T E input w os))) (fst (prun k T E input pps os))
+                    (w_ps (fst (wrun impl_fixed k T E input w os))) F') /\
+  snd (wrun impl_fixed k T E input w os) = snd (prun k T E input pps os).
 Proof.
   induction os as [|o os IH]; intros w pps F hw hd; simpl.
   - eauto.
   - inversion hd; subst.
-    destruct (wstep_sim k T cb w pps o F hw H1) as [[F1 h1] h2].
-    destruct (wstep true k T cb w o) as [w1 ob]. destruct (pstep k T cb pps o) as [pps1 pob].
+    destruct (wstep_sim k T E input w pps o F hw H1) as [[F1 h1] h2].
+    destruct (wstep impl_fixed k T E input w o) as [w1 ob]. destruct (pstep k T E input pps o) as [pps1 pob].
     simpl in *. subst pob.
     destruct (IH w1 pps1 F1 h1 H2) as [[F2 h3] h4].
-    destruct (wrun true k T cb w1 os) as [w2 obs]. destruct (prun k T cb pps1 os) as [pps2 pobs].
+    destruct (wrun impl_fixed k T E input w1 os) as [w2 obs]. destruct (prun k T E input pps1 os) as [pps2 pobs].
     simpl in *. subst. eauto.
 Qed.
 
 (* ------------------------------------------------------------------ own history of each fork *)
-Definition hrel k T cb (pp : pparser) (h : lineage) : Prop :=
-  pp_imm pp = fst h /\ (pp_ss pp, pp_ts pp) = preplay k T cb (snd h).
+Definition hrel k T E input (pp : pparser) (h : lineage) : Prop :=
+  pp_imm pp = fst h /\ (pp_ss pp, pp_ts pp, pp_pos pp) = preplay k T E input (snd h).
 
-Lemma preplay_snoc k T cb ev e : preplay k T cb (ev ++ [e]) = preplay1 k T cb (preplay k T cb ev) e.
+Lemma preplay_snoc k T E input ev e :
+  preplay k T E input (ev ++ [e]) = preplay1 k T E input (preplay k T E input ev) e.
 Proof. unfold preplay. rewrite fold_left_app. auto. Qed.
 
 Lemma Forall2_nth {A B} (R : A -> B -> Prop) l1 l2 i x :
@@ -684,99 +898,127 @@ Lemma Forall2_set_nth {A B} (R : A -> B -> Prop) l1 l2 i x y :
 Proof.
   intros h. revert i. induction h; intros [|i] hr; simpl; constructor; auto.
 Qed.
+Lemma Forall2_set_nth_r {A B} (R : A -> B -> Prop) l1 l2 i x y :
+  Forall2 R l1 l2 -> nth_error l1 i = Some x -> R x y -> Forall2 R l1 (set_nth l2 i y).
+Proof.
+  intros h. revert i. induction h; intros [|i] hn hr; simpl in *; try discriminate; constructor; auto.
+  - inversion hn; subst; auto.
+Qed.
 Lemma Forall2_snoc {A B} (R : A -> B -> Prop) l1 l2 x y :
   Forall2 R l1 l2 -> R x y -> Forall2 R (l1 ++ [x]) (l2 ++ [y]).
 Proof. intros h hr. apply Forall2_app; auto. Qed.
 
-Lemma pstep_lineage k T cb pps hs o :
-  Forall2 (hrel k T cb) pps hs -> Forall2 (hrel k T cb) (fst (pstep k T cb pps o)) (lstep hs o).
+Lemma pstep_lineage k T E input pps hs o :
+  Forall2 (hrel k T E input) pps hs ->
+  Forall2 (hrel k T E input) (fst (pstep k T E input pps o)) (lstep hs o).
 Proof.
-  intros hf. destruct o as [i ty id|i deep|i|i|i|i toks]; simpl.
-  - destruct (nth_error pps i) as [pp|] eqn:En.
-    2:{ rewrite (Forall2_nth_none _ _ _ _ hf En). auto. }
-    destruct (Forall2_nth _ _ _ _ _ hf En) as ([imm ev] & a & b & c). rewrite a. simpl in b, c.
-    destruct (pifeed k T cb (pp_ss pp) (pp_ts pp) ty id) as [[ss2 ts2] kd] eqn:E.
+  intros hf. destruct o as [i ty id|i|i deep|i|i|i|i]; simpl;
+    (destruct (nth_error pps i) as [pp|] eqn:En;
+     [|rewrite ?(Forall2_nth_none _ _ _ _ hf En); auto]);
+    try (destruct (Forall2_nth _ _ _ _ _ hf En) as ([imm ev] & a & b & c); rewrite a; simpl in b, c).
+  - destruct (pifeed k T E (pp_ss pp) (pp_ts pp) ty id) as [[ss2 ts2] kd] eqn:Ef.
     rewrite b. destruct imm; simpl.
-    + apply Forall2_snoc; auto. split; auto. simpl. rewrite preplay_snoc, <- c. simpl. rewrite E. auto.
-    + apply Forall2_set_nth; auto. split; auto. simpl. rewrite preplay_snoc, <- c. simpl. rewrite E. auto.
-  - destruct (nth_error pps i) as [pp|] eqn:En.
-    2:{ rewrite (Forall2_nth_none _ _ _ _ hf En). auto. }
-    destruct (Forall2_nth _ _ _ _ _ hf En) as (h & a & b). rewrite a. simpl.
-    apply Forall2_snoc; auto.
-  - destruct (nth_error pps i) as [pp|] eqn:En.
-    2:{ rewrite (Forall2_nth_none _ _ _ _ hf En). auto. }
-    destruct (Forall2_nth _ _ _ _ _ hf En) as ([imm ev] & a & b & c). rewrite a. simpl.
-    apply Forall2_snoc; auto. split; auto.
-  - destruct (nth_error pps i) as [pp|] eqn:En.
-    2:{ rewrite (Forall2_nth_none _ _ _ _ hf En). auto. }
-    destruct (Forall2_nth _ _ _ _ _ hf En) as ([imm ev] & a & b & c). rewrite a. simpl.
-    apply Forall2_snoc; auto. split; auto.
-  - destruct (nth_error pps i) as [pp|] eqn:En; auto.
-  - destruct (nth_error pps i) as [pp|] eqn:En.
-    2:{ rewrite (Forall2_nth_none _ _ _ _ hf En). auto. }
-    destruct (Forall2_nth _ _ _ _ _ hf En) as ([imm ev] & a & b & c). rewrite a. simpl in b, c.
-    destruct (pparse_from k T cb (pp_ss pp) (pp_ts pp) toks) as [[ss2 ts2] kd] eqn:E. simpl.
-    apply Forall2_set_nth; auto. split; auto. simpl. rewrite preplay_snoc, <- c. simpl. rewrite E. auto.
+    + apply Forall2_snoc; auto. split; auto. simpl. rewrite preplay_snoc, <- c. simpl. rewrite Ef. auto.
+    + apply Forall2_set_nth; auto. split; auto. simpl. rewrite preplay_snoc, <- c. simpl. rewrite Ef. auto.
+  - rewrite b. destruct imm; simpl; auto.
+    destruct (nth_error input (pp_pos pp)) as [[ty id]|] eqn:Ein.
+    + destruct (pifeed k T E (pp_ss pp) (pp_ts pp) ty id) as [[ss2 ts2] kd] eqn:Ef. simpl.
+      apply Forall2_set_nth; auto. split; auto. simpl. rewrite preplay_snoc, <- c. simpl. rewrite Ein, Ef. auto.
+    + simpl. eapply Forall2_set_nth_r; eauto. split; auto. simpl.
+      rewrite preplay_snoc, <- c. simpl. rewrite Ein. auto.
+  - apply Forall2_snoc; auto. split; auto.
+  - apply Forall2_snoc; auto. split; auto.
+  - apply Forall2_snoc; auto. split; auto.
+  - auto.
+  - destruct (pparse_from k T E (pp_ss pp) (pp_ts pp) (skipn (pp_pos pp) input)) as [[ss2 ts2] kd] eqn:Ef. simpl.
+    apply Forall2_set_nth; auto. split; auto. simpl. rewrite preplay_snoc, <- c. simpl. rewrite Ef. auto.
 Qed.
 
-Lemma prun_lineage k T cb os : forall pps hs,
-  Forall2 (hrel k T cb) pps hs ->
-  Forall2 (hrel k T cb) (fst (prun k T cb pps os)) (fold_left lstep os hs).
+Lemma prun_lineage k T E input os : forall pps hs,
+  Forall2 (hrel k T E input) pps hs ->
+  Forall2 (hrel k T E input) (fst (prun k T E input pps os)) (fold_left lstep os hs).
 Proof.
   induction os as [|o os IH]; intros pps hs hf; simpl; auto.
-  pose proof (pstep_lineage k T cb pps hs o hf) as h1.
-  destruct (pstep k T cb pps o) as [pps1 ob]. simpl in h1.
+  pose proof (pstep_lineage k T E input pps hs o hf) as h1.
+  destruct (pstep k T E input pps o) as [pps1 ob]. simpl in h1.
   specialize (IH pps1 _ h1).
-  destruct (prun k T cb pps1 os) as [pps2 obs]. simpl in *. auto.
+  destruct (prun k T E input pps1 os) as [pps2 obs]. simpl in *. auto.
 Qed.
 
 (* ================================================================== the theorems *)
 
-(* reading every value of a parser's stack off the heap *)
+(* reading every value of a parser's stack off the heap (trees with their metas) *)
 Definition read_stack (H : heap) (p : parser) : list ptree := map (read (S (length H)) H) (p_vs p).
 
-(* fork_separation: after any sequence of feed / copy / as_immutable / as_mutable / accepts /
-   resume operations in which every copy is deep, (1) every observation made on the way is the
-   one made on immutable trees, (2) no two parsers reach a common child list, and (3) each
-   parser's stacks are exactly those of a fresh parser that went through that parser's own
-   history - whatever was done to any other fork in between. *)
-Theorem fork_separation k T cb os :
+Lemma world0_owned T : wowns (w_heap (world0 T)) (pworld0 T) (w_ps (world0 T)) ([0] ++ []).
+Proof.
+  unfold world0, pworld0. cbn [w_heap w_ps].
+  apply (wo_cons [CLex 0] _ [] _ [] [0] []); auto using disjoint_nil_r.
+  - repeat split; simpl; auto. exists []. repeat split; auto. constructor.
+  - constructor.
+Qed.
+
+Lemma lineage0 k T E input : Forall2 (hrel k T E input) (pworld0 T) [(false, [])].
+Proof. constructor; auto. split; auto. Qed.
+
+(* fork_separation: after any sequence of feed / step / copy / as_immutable / as_mutable / accepts /
+   resume_parse operations in which every copy is deep, (1) every observation made on the way is the
+   one made on immutable trees, (2) no two parsers reach a common child list, Meta object or lexer
+   thread, and (3) each parser's stacks - trees *with their metas* - and the position of its lexer
+   are exactly those of a fresh parser that went through that parser's own history, whatever was
+   done to any other fork in between. *)
+Theorem fork_separation k T E input os :
   Forall all_deep os ->
-  let w := fst (wrun true k T cb (world0 T) os) in
-  snd (wrun true k T cb (world0 T) os) = snd (prun k T cb (pworld0 T) os) /\
+  let w := fst (wrun impl_fixed k T E input (world0 T) os) in
+  snd (wrun impl_fixed k T E input (world0 T) os) = snd (prun k T E input (pworld0 T) os) /\
   exists pps F,
     wowns (w_heap w) pps (w_ps w) F /\
     forall j p, nth_error (w_ps w) j = Some p ->
       exists h, nth_error (lineages os) j = Some h /\
-                p_imm p = fst h /\
-                (p_ss p, read_stack (w_heap w) p) = preplay k T cb (snd h).
+                p_imm p = fst h /\ p_sl p = p_lt p /\
+                (p_ss p, read_stack (w_heap w) p, lget (w_heap w) (p_lt p)) = preplay k T E input (snd h).
 Proof.
   intros hd w.
-  assert (hw0 : wowns (w_heap (world0 T)) (pworld0 T) (w_ps (world0 T)) ([] ++ [])).
-  { unfold world0, pworld0. cbn [w_heap w_ps].
-    apply (wo_cons [] _ [] _ [] [] []); auto using disjoint_nil_r.
-    - split; [reflexivity|]. split; [reflexivity|]. simpl. constructor.
-    - constructor. }
-  destruct (wrun_sim k T cb os (world0 T) (pworld0 T) _ hw0 hd) as [[F hw] hobs].
+  destruct (wrun_sim k T E input os (world0 T) (pworld0 T) _ (world0_owned T) hd) as [[F hw] hobs].
   split; auto. fold w in hw.
-  exists (fst (prun k T cb (pworld0 T) os)), F. split; auto.
+  exists (fst (prun k T E input (pworld0 T) os)), F. split; auto.
   intros j p hj.
-  destruct (wowns_set _ _ _ _ hw j p hj) as (pp & f & a & (hi & hs & ho) & c & _).
-  assert (hl : Forall2 (hrel k T cb) (pworld0 T) [(false, [])]).
-  { constructor; auto. split; auto. }
-  pose proof (prun_lineage k T cb os _ _ hl) as hf.
+  destruct (wowns_set _ _ _ _ hw j p hj) as (pp & f & a & (hi & hs & hsl & hlx & fv & ef & hnf & ho) & c & _).
+  pose proof (prun_lineage k T E input os _ _ (lineage0 k T E input)) as hf.
   destruct (Forall2_nth _ _ _ _ _ hf a) as (h & b & him & hst).
-  exists h. split; auto. split; [congruence|].
+  exists h. split; auto. split; [congruence|]. split; auto.
   unfold read_stack. rewrite (reads_own _ _ _ _ ho).
-  - rewrite hs. auto.
+  - rewrite hs, (lget_nth _ _ _ hlx). auto.
   - pose proof (owns_fp_le _ _ _ _ ho). lia.
 Qed.
 
-(* trial_feed_pure: a feed with callbacks = {} only allocates; every existing list object keeps
-   its content (so accepts() cannot disturb the parser it is asked on, nor any other) *)
+(* resume_parse() on any fork: it continues from the fork's own lexer position and behaves as
+   parse_from_state on what that lexer still holds, started from the stacks of the fork's own history *)
+Theorem fork_resume k T E input os j p h :
+  Forall all_deep os ->
+  let w := fst (wrun impl_fixed k T E input (world0 T) os) in
+  nth_error (w_ps w) j = Some p -> nth_error (lineages os) j = Some h ->
+  let '(ss, ts, pos) := preplay k T E input (snd h) in
+  snd (wstep impl_fixed k T E input w (OResume j)) =
+  ObsFeed j (qkd (pparse_from k T E ss ts (skipn pos input))) (qss (pparse_from k T E ss ts (skipn pos input))).
+Proof.
+  intros hd w hj hh.
+  destruct (wrun_sim k T E input os (world0 T) (pworld0 T) _ (world0_owned T) hd) as [[F hw] _].
+  fold w in hw.
+  destruct (wstep_sim k T E input w _ (OResume j) F hw I) as [_ ->].
+  destruct (wowns_set _ _ _ _ hw j p hj) as (pp & f & a & _).
+  pose proof (prun_lineage k T E input os _ _ (lineage0 k T E input)) as hf.
+  destruct (Forall2_nth _ _ _ _ _ hf a) as (h' & b & him & hst).
+  unfold lineages in hh. rewrite hh in b. inversion b; subst h'.
+  rewrite <- hst. simpl. rewrite a.
+  destruct (pparse_from k T E (pp_ss pp) (pp_ts pp) (skipn (pp_pos pp) input)) as [[ss2 ts2] kd]. auto.
+Qed.
+
+(* trial_feed_pure: a feed with callbacks = {} only allocates; every existing list object, Meta object
+   and lexer thread keeps its content (so accepts() cannot disturb the parser it is asked on, nor any other) *)
 Theorem trial_feed_pure k T H ss vs ty id e :
-  exists ext, rH (hfeed k T (fun _ => cb_none) H ss vs ty id e) = H ++ ext.
-Proof. apply hfeed_pure. auto. Qed.
+  exists ext, rH (hfeed k T env_none H ss vs ty id e) = H ++ ext.
+Proof. apply hfeed_pure. apply env_none_plain. Qed.
 
 (* accepts_exact *)
 Definition table_wf (T : table) : Prop :=
@@ -785,43 +1027,41 @@ Definition table_wf (T : table) : Prop :=
 Lemma cfeed_ok_action k T s ss t e : kind_ok (snd (cfeed k T (s :: ss) t e)) = true -> action T s t <> None.
 Proof. destruct k; simpl; [discriminate|]. destruct (action T s t); [discriminate|simpl; discriminate]. Qed.
 
-Theorem accepts_exact k T cb H p ts f t id :
+Theorem accepts_exact k T E H p ts f t id :
   table_wf T -> owns H ts (p_vs p) f ->
-  let c := copy_parser true H p in
-  In t (snd (accepts_loop true k T H p (choices T p))) <->
-  kind_ok (rkd (hifeed k T cb (fst c) (p_ss (snd c)) (p_vs (snd c)) t id)) = true.
+  let c := copy_parser impl_fixed true H p in
+  In t (snd (accepts_loop impl_fixed k T H p (choices T p))) <->
+  kind_ok (rkd (hifeed k T E (fst c) (p_ss (snd c)) (p_vs (snd c)) t id)) = true.
 Proof.
   intros hwf ho c.
   destruct (accepts_loop_spec k T p ts f (choices T p) H ho) as [_ ->].
-  destruct (copy_parser_deep_spec _ _ _ _ ho) as (ext & f' & a & b & c1 & d & e).
+  destruct (copy_parser_ext true H p ts f ho) as (ext & f' & a & c1 & d & e).
   fold c in c1. rewrite c1.
-  pose proof (hfeed_ctrl T cb k (fst c) (p_ss p) (p_vs (snd c)) t id (t =? END)) as hc.
+  pose proof (hfeed_ctrl T E k (fst c) (p_ss p) (p_vs (snd c)) t id (t =? END)) as hc.
   unfold hifeed.
-  destruct (cfeed k T (p_ss p) t (t =? END)) as [ss2 kd] eqn:E.
+  destruct (cfeed k T (p_ss p) t (t =? END)) as [ss2 kd] eqn:Ec.
   inversion hc as [[h1 h2]]. rewrite h2.
-  rewrite filter_In. rewrite E. simpl. split; [tauto|].
+  rewrite filter_In. rewrite Ec. simpl. split; [tauto|].
   intros hk. split; auto. unfold choices.
   destruct (p_ss p) as [|s ss].
-  - destruct k; simpl in E; inversion E; subst; discriminate.
-  - apply hwf. apply (cfeed_ok_action k T s ss t (t =? END)). rewrite E. auto.
+  - destruct k; simpl in Ec; inversion Ec; subst; discriminate.
+  - apply hwf. apply (cfeed_ok_action k T s ss t (t =? END)). rewrite Ec. auto.
 Qed.
 
 (* feed_eq_parse: feeding the tokens one at a time and then $END is parse_from_state *)
-Theorem feed_eq_parse k T cb toks : forall H ss vs,
+Theorem feed_eq_parse k T E toks : forall H ss vs,
   Forall (fun t => fst t <> END) toks ->
-  hfeed_all k T cb H ss vs toks = hparse_from k T cb H ss vs toks.
+  hfeed_all k T E H ss vs toks = hparse_from k T E H ss vs toks.
 Proof.
   induction toks as [|[ty id] rest IH]; intros H ss vs hf; simpl; auto.
   rewrite hparse_from_cons.
   inversion hf; subst. simpl in H2. unfold hifeed at 1.
   destruct (Nat.eqb_spec ty END); [contradiction|].
-  destruct (hfeed k T cb H ss vs ty id false) as [[[H1 ss1] vs1] kd].
+  destruct (hfeed k T E H ss vs ty id false) as [[[H1 ss1] vs1] kd].
   destruct kd; auto.
 Qed.
 
-(* ... and on immutable trees: a fork whose own history is "tokens, then $END" and whose parse
-   succeeds ends with the stacks, hence the result, of Lark.parse on those tokens *)
-Lemma pfeed_false_not_result k T cb : forall ss ts ty id, qkd (pfeed k T cb ss ts ty id false) <> KResult.
+Lemma pfeed_false_not_result k T E : forall ss ts ty id, qkd (pfeed k T E ss ts ty id false) <> KResult.
 Proof.
   induction k as [|k IH]; intros; simpl; try discriminate.
   destruct ss as [|s ss']; try discriminate.
@@ -831,62 +1071,65 @@ Proof.
   simpl. apply IH.
 Qed.
 
-Lemma preplay_feeds k T cb toks : forall ss ts ss' ts',
+(* ... and on immutable trees: a fork whose own history is "tokens, then $END" and whose parse
+   succeeds ends with the stacks, hence the result tree and all its metas, of Lark.parse on those tokens *)
+Lemma preplay_feeds k T E input toks : forall ss ts pos ss' ts',
   Forall (fun t => fst t <> END) toks ->
-  pparse_from k T cb ss ts toks = (ss', ts', KResult) ->
-  fold_left (preplay1 k T cb) (map (fun t => EFeed (fst t) (snd t)) toks ++ [EFeed END 0]) (ss, ts) = (ss', ts').
+  pparse_from k T E ss ts toks = (ss', ts', KResult) ->
+  fold_left (preplay1 k T E input) (map (fun t => EFeed (fst t) (snd t)) toks ++ [EFeed END 0]) (ss, ts, pos)
+  = (ss', ts', pos).
 Proof.
-  induction toks as [|[ty id] rest IH]; intros ss ts ss' ts' hf hp; simpl in *.
+  induction toks as [|[ty id] rest IH]; intros ss ts pos ss' ts' hf hp; simpl in *.
   - unfold pifeed. simpl. rewrite pparse_from_nil in hp. rewrite hp. auto.
   - rewrite pparse_from_cons in hp.
     inversion hf; subst. simpl in H1. unfold pifeed.
     destruct (Nat.eqb_spec ty END); [contradiction|].
-    pose proof (pfeed_false_not_result k T cb ss ts ty id) as hnr.
-    destruct (pfeed k T cb ss ts ty id false) as [[ss1 ts1] kd].
+    pose proof (pfeed_false_not_result k T E ss ts ty id) as hnr.
+    destruct (pfeed k T E ss ts ty id false) as [[ss1 ts1] kd].
     destruct kd; try discriminate; [apply IH; auto|]. elim hnr. reflexivity.
 Qed.
 
-Theorem fork_result_eq_parse k T cb toks ss ts :
+Theorem fork_result_eq_parse k T E input toks ss ts :
   Forall (fun t => fst t <> END) toks ->
-  pparse k T cb toks = (ss, ts, KResult) ->
-  preplay k T cb (map (fun t => EFeed (fst t) (snd t)) toks ++ [EFeed END 0]) = (ss, ts).
+  pparse k T E toks = (ss, ts, KResult) ->
+  preplay k T E input (map (fun t => EFeed (fst t) (snd t)) toks ++ [EFeed END 0]) = (ss, ts, 0).
 Proof. intros. apply preplay_feeds; auto. Qed.
 
 (* resume_eq_parse_rest *)
 (* feeding a prefix while every token shifts *)
-Definition hstep k T cb (st : heap * list nat * list value * kind) (t : nat * nat) :=
+Definition hstep k T E (st : heap * list nat * list value * kind) (t : nat * nat) :=
   match st with
-  | (H, ss, vs, KShift) => hfeed k T cb H ss vs (fst t) (snd t) false
+  | (H, ss, vs, KShift) => hfeed k T E H ss vs (fst t) (snd t) false
   | _ => st
   end.
-Definition hfeeds k T cb H ss vs pre := fold_left (hstep k T cb) pre (H, ss, vs, KShift).
+Definition hfeeds k T E H ss vs pre := fold_left (hstep k T E) pre (H, ss, vs, KShift).
 
-Lemma hstep_stop k T cb pre : forall H ss vs kd, kd <> KShift ->
-  fold_left (hstep k T cb) pre (H, ss, vs, kd) = (H, ss, vs, kd).
+Lemma hstep_stop k T E pre : forall H ss vs kd, kd <> KShift ->
+  fold_left (hstep k T E) pre (H, ss, vs, kd) = (H, ss, vs, kd).
 Proof. induction pre; simpl; auto. intros. destruct kd; try congruence; apply IHpre; auto. Qed.
 
-Lemma hparse_from_app k T cb pre : forall H ss vs rest,
-  hparse_from k T cb H ss vs (pre ++ rest) =
-  match hfeeds k T cb H ss vs pre with
-  | (H1, ss1, vs1, KShift) => hparse_from k T cb H1 ss1 vs1 rest
+Lemma hparse_from_app k T E pre : forall H ss vs rest,
+  hparse_from k T E H ss vs (pre ++ rest) =
+  match hfeeds k T E H ss vs pre with
+  | (H1, ss1, vs1, KShift) => hparse_from k T E H1 ss1 vs1 rest
   | r => r
   end.
 Proof.
   unfold hfeeds. induction pre as [|[ty id] pre IH]; intros; simpl; auto.
   rewrite hparse_from_cons.
-  destruct (hfeed k T cb H ss vs ty id false) as [[[H1 ss1] vs1] kd].
+  destruct (hfeed k T E H ss vs ty id false) as [[[H1 ss1] vs1] kd].
   destruct kd; try (rewrite IH; auto; fail); rewrite hstep_stop; auto; discriminate.
 Qed.
 
 (* parse stops at the unexpected token with the parser state st_e exposed to the error handler;
    resume_parse() from st_e on the rest of the input is exactly "feed the rest one by one from
    st_e, then $END" - i.e. a parse of the remaining input from that configuration *)
-Theorem resume_eq_parse_rest k T cb pre bad rest H ss vs H1 ss1 vs1 He sse vse :
+Theorem resume_eq_parse_rest k T E pre bad rest H ss vs H1 ss1 vs1 He sse vse :
   Forall (fun t => fst t <> END) rest ->
-  hfeeds k T cb H ss vs pre = (H1, ss1, vs1, KShift) ->
-  hfeed k T cb H1 ss1 vs1 (fst bad) (snd bad) false = (He, sse, vse, KError) ->
-  hparse_from k T cb H ss vs (pre ++ bad :: rest) = (He, sse, vse, KError) /\
-  hparse_from k T cb He sse vse rest = hfeed_all k T cb He sse vse rest.
+  hfeeds k T E H ss vs pre = (H1, ss1, vs1, KShift) ->
+  hfeed k T E H1 ss1 vs1 (fst bad) (snd bad) false = (He, sse, vse, KError) ->
+  hparse_from k T E H ss vs (pre ++ bad :: rest) = (He, sse, vse, KError) /\
+  hparse_from k T E He sse vse rest = hfeed_all k T E He sse vse rest.
 Proof.
   intros hf h1 h2. split.
   - rewrite hparse_from_app. rewrite h1. destruct bad as [ty id]. rewrite hparse_from_cons. simpl in *. rewrite h2. auto.
